@@ -614,3 +614,81 @@ M("c07_mut_vec_extend_copy_writes_then_reserves", ["C07"], ["C07.R4"], [
             let dst = self.as_mut_ptr().add(self.len());
             ptr::copy_nonoverlapping(src, dst, len);
 """)])
+
+# ---------------------------------------------------------------- C17
+M("c17_forward_try_alloc_iter_exact_to_try_alloc_iter", ["C17"], ["C17.R1"], [
+    ("src/traits/macros.rs", "BumpAllocatorTypedScope::try_alloc_iter_exact($access, iter)", "BumpAllocatorTypedScope::try_alloc_iter($access, iter)")])
+M("c17_array_layout_from_layout_unchecked", ["C17"], ["C17.R4"], [
+    ("src/layout.rs", """        if layout.size() % layout.align() == 0 {
+            Ok(ArrayLayout(layout))
+        } else {
+            Err(ArrayLayoutError)
+        }""", """        if layout.align() != 0 {
+            Ok(ArrayLayout(layout))
+        } else {
+            Err(ArrayLayoutError)
+        }""")])
+M("c17_custom_layout_claims_const_align", ["C17"], ["C17.R4"], [
+    ("src/layout.rs", """impl LayoutProps for CustomLayout {
+    const ALIGN_IS_CONST: bool = false;""", """impl LayoutProps for CustomLayout {
+    const ALIGN_IS_CONST: bool = true;""")])
+M("c17_ref_impl_allocate_zeroed_slip", ["C17", "C02"], ["C17.R2", "C02.R3"], [
+    ("src/without_dealloc.rs", """    fn allocate_zeroed(&self, layout: Layout) -> Result<NonNull<[u8]>, AllocError> {
+        self.0.allocate_zeroed(layout)
+    }
+
+    #[inline(always)]
+    unsafe fn deallocate(&self, ptr: NonNull<u8>, layout: Layout) {
+        unsafe { self.0.deallocate(ptr, layout) };""", """    fn allocate_zeroed(&self, layout: Layout) -> Result<NonNull<[u8]>, AllocError> {
+        self.0.allocate(layout)
+    }
+
+    #[inline(always)]
+    unsafe fn deallocate(&self, ptr: NonNull<u8>, layout: Layout) {
+        unsafe { self.0.deallocate(ptr, layout) };""")])
+M("c17_grow_args_swapped_in_wrapper", ["C17"], ["C17.R2"], [
+    ("src/without_dealloc.rs", """    unsafe fn grow(&self, ptr: NonNull<u8>, old_layout: Layout, new_layout: Layout) -> Result<NonNull<[u8]>, AllocError> {
+        unsafe { self.0.grow(ptr, old_layout, new_layout) }
+    }
+
+    #[inline(always)]
+    unsafe fn grow_zeroed(
+        &self,
+        ptr: NonNull<u8>,
+        old_layout: Layout,
+        new_layout: Layout,
+    ) -> Result<NonNull<[u8]>, AllocError> {
+        unsafe { self.0.grow_zeroed(ptr, old_layout, new_layout) }
+    }
+
+    #[inline(always)]
+    unsafe fn shrink(&self, ptr: NonNull<u8>, old_layout: Layout, new_layout: Layout) -> Result<NonNull<[u8]>, AllocError> {
+        unsafe { self.0.shrink(ptr, old_layout, new_layout) }""", """    unsafe fn grow(&self, ptr: NonNull<u8>, old_layout: Layout, new_layout: Layout) -> Result<NonNull<[u8]>, AllocError> {
+        unsafe { self.0.grow(ptr, new_layout, old_layout) }
+    }
+
+    #[inline(always)]
+    unsafe fn grow_zeroed(
+        &self,
+        ptr: NonNull<u8>,
+        old_layout: Layout,
+        new_layout: Layout,
+    ) -> Result<NonNull<[u8]>, AllocError> {
+        unsafe { self.0.grow_zeroed(ptr, old_layout, new_layout) }
+    }
+
+    #[inline(always)]
+    unsafe fn shrink(&self, ptr: NonNull<u8>, old_layout: Layout, new_layout: Layout) -> Result<NonNull<[u8]>, AllocError> {
+        unsafe { self.0.shrink(ptr, old_layout, new_layout) }""")])
+M("c17_try_twin_diverges", ["C17"], ["C17.R3"], [
+    ("src/bump_vec.rs", """    pub fn try_reserve_exact(&mut self, additional: usize) -> Result<(), AllocError> {
+        self.generic_reserve_exact(additional)
+    }""", """    pub fn try_reserve_exact(&mut self, additional: usize) -> Result<(), AllocError> {
+        self.generic_reserve(additional)
+    }""")])
+M("c17_alloc_sized_slow_path_other_type", ["C17"], ["C17.R4"], [
+    ("src/raw_bump.rs", "None => match self.alloc_sized_in_another_chunk::<E, T>() {", "None => match self.alloc_sized_in_another_chunk::<E, [T; 1]>() {")])
+M("c17_trait_object_uses_grow", ["C17"], ["C17.R5"], [
+    ("src/traits/bump_allocator_typed.rs", """        match bump.allocate(Layout::new::<T>()) {
+            Ok(ptr) => Ok(ptr.cast()),""", """        match bump.allocate_zeroed(Layout::new::<T>()) {
+            Ok(ptr) => Ok(ptr.cast()),""")])
